@@ -41,7 +41,7 @@ type vgen struct {
 	noDump    bool
 }
 
-var cleanStrings = []string{"", "a", "hello", "x y", "é", "☃", "日本", "0", "-1", "a\nb", "\n", "tab\there", "q\"uote", "back`tick", "%d", "nº", "menú", "x⁺", "a\r\nb", "\r"}
+var cleanStrings = []string{"", "a", "hello", "x y", "é", "☃", "日本", "0", "-1", "a\nb", "\n", "tab\there", "q\"uote", "back`tick", "%d", "nº", "menú", "x⁺", "a\r\nb", "\r", "a‸b", "※"}
 var hostileStrings = []string{"‹", "›", "‹a›", "a‹b", "›x‹", "×", "‹×›", "\xe2", "\xe2\x80", "\x80\xb9", "a\xe2", "\xe2\x80\xb9\n", "\n‹\n", "a\n\n›b", "\xff", "\xc3", "?‹?"}
 
 func (g *vgen) str() string {
@@ -438,7 +438,7 @@ func (g *vgen) action(depth int) *Act {
 
 // ---------- format generator ----------
 // "º", "ú", "⁺" end in 0xBA, the last byte of the closing marker; "\x80\xba" is its two-byte tail
-var litPieces = []string{"", "a", " ", "x=", "\n", "‹", "›", "\xe2", "\x80\xb9", "é", "%%", ":", "‹×›", "nº", "ú", "⁺", "\x80\xba", "\xba", "\r\n", "h\r\n"}
+var litPieces = []string{"", "a", " ", "x=", "\n", "‹", "›", "\xe2", "\x80\xb9", "é", "%%", ":", "‹×›", "nº", "ú", "⁺", "\x80\xba", "\xba", "\r\n", "h\r\n", "‸", "※"}
 
 func (g *vgen) literal() string {
 	r := g.rng
